@@ -150,6 +150,7 @@ Proof.
   1,2: eapply sim_bind; [apply ttype_sim; auto|]; intros ty s' Hi' Hl;
        destruct ty; try (apply sim_ret; auto; fail);
        (eapply sim_bind; [apply i16_sim; auto|]; intros; apply sim_ret; auto).
+  rewrite (clear_pfield_id s (proj1 Hi)).
   eapply sim_bind; [apply byte_sim; auto|]. intros b s1 Hi1 Hl1.
   set (X := if b mod 16 =? ctype_code CBooleanTrue then _ else _).
   assert (SX : sim s1 X X).
